@@ -97,6 +97,13 @@ def run(tier, replay=None):
         if m and m.group(2) != "0":
             base = "inflate-use%s-history0" % m.group(1)
             pairs.append(("inflate-history-independent|%s: %s" % (USE[int(m.group(1))], HIST[m.group(2)]), obs[base], obs[name], {"pair": [base, name]}))
+    SH = {"1": "garbage-filled context and level buffer before init", "2": "re-initialised after a one-shot call on incompressible data (stored fallback)", "3": "re-initialised after a one-shot call on compressible data",
+          "4": "re-initialised after a one-shot call on small-alphabet data", "5": "after a one-shot call that overflowed its output", "6": "after a one-shot call and isal_deflate_reset", "7": "after a one-shot call and isal_deflate_init"}
+    for name in sorted(obs):
+        m = re.match(r"stateless-level(\d)-lbuf(\d)-history(\d)", name)
+        if m and m.group(3) != "0":
+            base = "stateless-level%s-lbuf%s-history0" % (m.group(1), m.group(2))
+            pairs.append(("stateless-history-independent|level %s, %s level buffer: %s" % (m.group(1), ["minimum", "default"][int(m.group(2))], SH[m.group(3)]), obs[base], obs[name], {"pair": [base, name]}))
     # pre-fill pairs through the scenario harness (context/level-buffer contents before init; different chunk memory)
     scns = []
     k = 0
